@@ -115,6 +115,10 @@ def oracle_facts(spaces, lowers, words):
     facts.append(('operators_lower_to_keywords', all(list(low.get(ord(c), [ord(c)])) == [ord(c) + 32] for c in 'ANDORWITH')
                   and ('AND'.lower(), 'OR'.lower(), 'WITH'.lower(), '('.lower(), ')'.lower()) == ('and', 'or', 'with', '(', ')')))
     facts.append(('lower_never_makes_paren', all(40 not in lo and 41 not in lo for cp, lo in low.items())))
+    # premises of the C05 theorem over accepted tables: lower-casing leaves white space as it is, and gives at least one
+    # character (that it never makes white space out of something else is lower_preserves_class)
+    facts.append(('spaces_lower_fixed', all(cp not in low for cp in sp)))
+    facts.append(('lower_never_empty', all(len(lo) >= 1 for lo in low.values())))
     # '-', ':', '.', '+' are not word characters or spaces; letters, digits, '_' are word characters
     def isw(c):
         return any(a <= c <= b for a, b in words)
@@ -211,15 +215,18 @@ def enc_expr(e):
 
 class UserRecord(object):
     """A user object with a key and an exception flag, as a table of objects holds them."""
-    def __init__(self, key, is_exception=False):
+    def __init__(self, key, is_exception=False, aliases=None):
         self.key = key
         self.is_exception = is_exception
+        if aliases is not None:
+            self.aliases = aliases
 
 
 def build_expr(d, licensing=None, like=False, _rng=None):
     """Build implementation objects from the encoded tree (no parsing involved). With like=True every license is a
     LicenseSymbolLike wrapping a user object, as an expression parsed over a table of objects has them; with like=<int> each
-    license occurrence is a plain symbol or a wrapped object by a seeded choice (expressions combined from two Licensings)."""
+    license occurrence is a plain symbol or a wrapped object, with or without aliases, by a seeded choice (expressions
+    combined from Licensings with different tables)."""
     le = imp()
     if _rng is None and like is not True and like is not False:
         import random as _random
@@ -227,9 +234,14 @@ def build_expr(d, licensing=None, like=False, _rng=None):
 
     def mk(k, ex):
         wrapped = like is True or (_rng is not None and _rng.random() < 0.5)
+        # in a mixture, occurrences of one license come from tables that list other aliases for it (a tuple, or a list on
+        # a user object): the aliases take no part in what a symbol is
+        als = None
+        if _rng is not None and _rng.random() < 0.5:
+            als = _rng.choice([(k + ' license',), ('the ' + k, k + ' 2'), ()])
         if wrapped:
-            return le.LicenseSymbolLike(UserRecord(k, ex))
-        return le.LicenseSymbol(k, is_exception=ex)
+            return le.LicenseSymbolLike(UserRecord(k, ex, None if als is None else (list(als) if _rng.random() < 0.5 else als)))
+        return le.LicenseSymbol(k, is_exception=ex) if als is None else le.LicenseSymbol(k, aliases=als, is_exception=ex)
     tag = d[0]
     if tag == 0:
         a = d[1]
